@@ -1447,13 +1447,18 @@ impl PayloadContent {
     pub fn arg_count(&self) -> u8 {
         match &self {
             PayloadContent::Verbose(args) => std::cmp::min(args.len() as u8, u8::MAX),
+            // a network trace is serialised as one raw argument per slice
+            PayloadContent::NetworkTrace(slices) => std::cmp::min(slices.len() as u8, u8::MAX),
             _ => 0,
         }
     }
 
     #[allow(dead_code)]
     pub(crate) fn is_verbose(&self) -> bool {
-        matches!(self, PayloadContent::Verbose(_))
+        matches!(
+            self,
+            PayloadContent::Verbose(_) | PayloadContent::NetworkTrace(_)
+        )
     }
 
     #[allow(dead_code)]
